@@ -410,11 +410,12 @@ class Walker:
             if obs[n] in self.objs.peel:
                 if p is not None and p != self.objs.peel[obs[n]]:
                     tag = "tag" if self.objs.peel[obs[n]] != obs[n] else "commit"
-                    self.report(f"{site}.get_peeled", "peeled", f"name={pl} value={tag} got={'itself' if p == obs[n] else _cls(p)}",
+                    self.report(f"{site}.get_peeled", "peeled",
+                                f"name={pl}{_tagns(n)} value={tag} got={'itself' if p == obs[n] else _cls(p)}",
                                 f"get_peeled({'/'.join(n)}) gives {p}; the ref holds {obs[n]} which peels to {self.objs.peel[obs[n]]}",
                                 hist, be, {})
             elif p is not None and not (isinstance(p, str) and p in ("exc:KeyError", "exc:SymrefLoop")):
-                self.report(f"{site}.get_peeled", "peeled", f"name={pl} unresolvable got={_cls(p)}",
+                self.report(f"{site}.get_peeled", "peeled", f"name={pl}{_tagns(n)} unresolvable got={_cls(p)}",
                             f"get_peeled({'/'.join(n)}) gives {p} for a ref that does not resolve", hist, be, {})
         want_dict = {n: v for n, v in obs.items() if v in self.objs.ids}
         if api["as_dict"] != want_dict:
@@ -505,6 +506,10 @@ def _cls(v):
     if isinstance(v, str) and (v.startswith("v") or v.startswith("?")):
         return "id"
     return str(v)
+
+
+def _tagns(n):
+    return " tag-namespace" if tuple(n[:2]) == ("refs", "tags") else ""
 
 
 def _got(v):
